@@ -243,21 +243,19 @@ func (x *hrRun) reader(msg bool, n int) {
 		k, err := x.g.read(msg, buf)
 		ch <- hrRet{k, err, buf}
 	}()
-	wait := 3 * time.Second
+	wait := 10 * time.Second // generous: the machine may be busy; a call that needs this long has hung
 	if wouldBlock {
 		wait = 25 * time.Millisecond
 	}
 	var ret hrRet
 	select {
 	case ret = <-ch:
-		if wouldBlock {
-			// allowed only if it is an error-free empty read? No: nothing is queued, the session is open and
-			// no deadline is set — the documented behaviour is to wait.  Recorded as observed; the model says HBlock.
-		}
+		// (if wouldBlock: nothing is queued, the session is open and no deadline is set, so the call should
+		// have waited; what it returned instead is recorded as observed and judged below; the model says HBlock)
 	case <-time.After(wait):
 		x.ev(op, "Vb", tag+"=blocked")
 		if !wouldBlock {
-			x.fail("C17:handle-read-call-did-not-return", fmt.Sprintf("%s did not return within 3 s although data, end-of-stream or an expired deadline was available", tag))
+			x.fail("C17:handle-read-call-did-not-return", fmt.Sprintf("%s did not return within 10 s although data, end-of-stream or an expired deadline was available", tag))
 			x.g.h.Close()
 			x.dead = true
 			return
@@ -269,7 +267,7 @@ func (x *hrRun) reader(msg bool, n int) {
 			if ret.n != 0 || !errors.Is(ret.err, os.ErrDeadlineExceeded) {
 				x.fail("C17:handle-read-not-released-by-deadline", fmt.Sprintf("a blocked %s released by an expired read deadline returned (%d, %v)", tag, ret.n, ret.err))
 			}
-		case <-time.After(3 * time.Second):
+		case <-time.After(10 * time.Second):
 			x.fail("C17:handle-read-not-released-by-deadline", "a blocked "+tag+" was not released by an expired read deadline")
 			x.g.h.Close()
 			x.dead = true
@@ -464,17 +462,17 @@ func runHrCase(r *hv.Rand, c hrClass, script []string) {
 func runHandleRead(r *hv.Rand) {
 	// scripted: the model's witnesses / corner cases (Properties/C17Read.v)
 	scripts := [][]string{
-		{"A5", "R2", "M10"},                         // ReadMsg after a short Read returns the rest of the message
-		{"A5", "R2", "M1", "M3"},                    // ... or ErrBufOverflow while the rest does not fit
-		{"A4", "R0", "R0", "R4"},                    // zero-length buffer moves the message into the leftover buffer
-		{"A0", "R4", "A0", "M0"},                    // empty messages
-		{"A3", "A3", "C0", "R2", "R2", "R2", "R2"},  // data queued before Close comes before EOF, fragment by fragment
-		{"A6", "R4", "C1", "R1", "R1", "R1"},        // leftover survives the peer's close
-		{"A9", "M8", "M8", "M9"},                    // overflow keeps the message
+		{"A5", "R2", "M10"},                                                // ReadMsg after a short Read returns the rest of the message
+		{"A5", "R2", "M1", "M3"},                                           // ... or ErrBufOverflow while the rest does not fit
+		{"A4", "R0", "R0", "R4"},                                           // zero-length buffer moves the message into the leftover buffer
+		{"A0", "R4", "A0", "M0"},                                           // empty messages
+		{"A3", "A3", "C0", "R2", "R2", "R2", "R2"},                         // data queued before Close comes before EOF, fragment by fragment
+		{"A6", "R4", "C1", "R1", "R1", "R1"},                               // leftover survives the peer's close
+		{"A9", "M8", "M8", "M9"},                                           // overflow keeps the message
 		{"A2", "A2", "A2", "A2", "A2", "A2", "A2", "A2", "A2", "R1", "A2"}, // queue full
-		{"U0", "R4", "A3", "U0", "R4"},              // blocked Read released by a deadline
-		{"U0", "R0"},                                // zero-length Read on an idle open handle blocks
-		{"C0", "X0", "U0", "R3"},                    // deadline changes after close
+		{"U0", "R4", "A3", "U0", "R4"},                                     // blocked Read released by a deadline
+		{"U0", "R0"},                                                       // zero-length Read on an idle open handle blocks
+		{"C0", "X0", "U0", "R3"},                                           // deadline changes after close
 	}
 	for i, s := range scripts {
 		runHrCase(r, hrClass{name: "handle-read-script", viaClient: i%2 == 1, pRead: 50}, s)
